@@ -656,7 +656,7 @@ fn plan_mux(c: &CliCase) -> MuxPlan {
         ops.push(Op::Audio { pts: F(0.0), data: Hex(d) });
     }
     ops.push(Op::Finish(FinishKind::Consume));
-    let lib = ProgCase { cfg: ProgCfg { video: Some(VideoCfg { codec: vc, width: w, height: h, fps: F(f), alias: false }), audio: acfg, fast_start: None, meta, sink: SinkKind::Sim }, ops, faults: FaultPlan::default() };
+    let lib = ProgCase { cfg: ProgCfg { video: Some(VideoCfg { codec: vc, width: w, height: h, fps: F(f), alias: false }), audio: acfg, video_prior: None, audio_prior: None, fast_start: None, meta, sink: SinkKind::Sim }, ops, faults: FaultPlan::default() };
     let ex = exec::run_prog(&lib);
     let all_ok = ex.build.is_ok() && ex.ops.iter().all(|o| o.res.is_ok());
     let n_audio = if lib.ops.len() == 3 { 1 } else { 0 };
